@@ -12,7 +12,7 @@ EXTENDS Naturals, Sequences, TLC, Json, IOUtils
 
 Rec == ndJsonDeserialize(IOEnv.TRACE)
 AllDevs == {"D_new_compressor_revname_rest", "D_new_compressor_ptr_overflow",
-            "D_new_builder_failed_push_compressor"}
+            "D_new_builder_failed_push_compressor", "D_new_builder_truncate_counts"}
 OpenDevs == {d \in AllDevs : d \in DOMAIN IOEnv}
 
 W == INSTANCE Wire WITH Dev <- {}
@@ -82,7 +82,35 @@ T_FillPanic ==
   /\ "D_new_builder_failed_push_compressor" \in OpenDevs
   /\ used' = used \cup {"D_new_builder_failed_push_compressor"}
 
-TNext == T_Built \/ T_Big \/ T_Fill \/ T_FillPanic
+\* push a segment, discard everything (new: truncate(); established:
+\* builder(), which rewinds all sections), push a second segment, finish.
+\* Discarding zeroes the counts; the finished message holds exactly the
+\* second segment (names of the first one must be forgotten) and, on the
+\* new builder, has TC set.
+Zero4 == <<0, 0, 0, 0>>
+TruncStepsOk(e) ==
+  \A i \in 1..Len(e.steps) :
+    LET prev == IF i = 1 THEN Zero4 ELSE e.steps[i - 1].counts
+        st == e.steps[i]
+    IN CASE st.op = "push" ->
+              st.counts = IF st.ok THEN [prev EXCEPT ![st.sec + 1] = prev[st.sec + 1] + 1] ELSE prev
+         [] st.op = "trunc" ->
+              \/ st.counts = Zero4
+              \/ (e.side = "new" /\ "D_new_builder_truncate_counts" \in OpenDevs /\ st.counts = prev)
+         [] st.op = "reset" -> st.counts = Zero4
+         [] OTHER -> FALSE
+TruncOk(e) ==
+  /\ TruncStepsOk(e)
+  /\ <<W!QD(e.m), W!AN(e.m), W!NS(e.m), W!AR(e.m)>> = e.steps[Len(e.steps)].counts
+  /\ SpecReads(e.m, e.items) /\ e.old_reads /\ e.new_reads
+  /\ e.side = "new" => W!TC(e.m)
+T_Trunc ==
+  /\ IsEv("trunc")
+  /\ (IF TruncOk(Rec[l]) THEN TRUE ELSE FALSE)
+  /\ used' = IF \E i \in 1..Len(Rec[l].steps) : Rec[l].steps[i].op = "trunc" /\ Rec[l].steps[i].counts # Zero4
+             THEN used \cup {"D_new_builder_truncate_counts"} ELSE used
+
+TNext == T_Built \/ T_Big \/ T_Fill \/ T_FillPanic \/ T_Trunc
 TSpec == TInit /\ [][TNext]_tvars
 
 Accepted ==
